@@ -92,7 +92,6 @@ func (at *AdaptiveTable) Flush() {
 			}
 		}
 	}
-	padding := "                                        "
 	if at.haveLabels {
 		line1 := make([]string, len(at.columns))
 		line2 := make([]string, len(at.columns))
@@ -127,7 +126,7 @@ func (at *AdaptiveTable) Flush() {
 			}
 			before += col.leading + nextBefore
 			nextBefore = after
-			fmt.Print(padding[:before] + cell)
+			fmt.Print(strings.Repeat(" ", before) + cell)
 		}
 		fmt.Println()
 	}
